@@ -457,7 +457,7 @@ def step_case(draw, tier="quick"):
     cls = draw(S(CLASSES))
     dtype = draw(S(["float32", "float32", "float64"]))
     dt = draw(S([0.1, 0.5, 1.0, 1.3, 0.25]))
-    refrac_t = _refrac(draw, dt, ("zero", "int", "int", "int", "frac", "frac", "frac"))
+    refrac_t = _refrac(draw, dt, ("int", "frac", "zero", "int", "frac", "int", "frac"))
     shape = draw(S([[1], [3], [2, 2], [3], [2]]))
     batch = draw(S([1, 2, 3]))
     numel = batch * int(np.prod(shape))
@@ -484,7 +484,7 @@ def step_case(draw, tier="quick"):
     if adaptive:
         case["reduction"] = draw(S([None, None, "sum", "amax"]))
     # known finding (spike attribute with refrac_t == 0): excluded by construction in 80 % of the cases
-    case["attr"] = True if refrac_t > 0 else draw(st.integers(0, 4)) == 0
+    case["attr"] = True if refrac_t > 0 else draw(S([False, False, True, False, False]))
     return case
 
 
@@ -494,7 +494,7 @@ def exact_case(draw, tier="quick"):
     cls = draw(S(LINEAR + QUADRATIC))
     dtype = draw(S(["float32", "float64"]))
     dt = draw(S([0.5, 1.0, 0.25]))
-    refrac_t = draw(S([0.0, 0.0, 1.0, 1.0, 2.0])) * dt
+    refrac_t = draw(S([1.0, 0.0, 2.0, 0.0, 1.0])) * dt
     shape = draw(S([[1], [2], [3]]))
     batch = draw(S([1, 2]))
     params = _params(draw, cls, dyadic=True)
@@ -509,7 +509,8 @@ def exact_case(draw, tier="quick"):
     steps = []
     probe = st.one_of(
         st.just(["th", 0, 0]), st.just(["th", 0, 0]),
-        st.tuples(st.just("th"), st.sampled_from([-1, 1, -3, 3]), st.integers(0, 12)).map(list),
+        st.tuples(st.just("th"), st.sampled_from([-1, -1, -3, 1, 3]), st.integers(0, 12)).map(list),
+        st.tuples(st.just("th"), st.sampled_from([-1, -1, -3, 1, 3]), st.integers(0, 12)).map(list),
         st.tuples(st.just("thulp"), st.sampled_from([-1, 1, -2])).map(list),
     )
     for _ in range(nsteps):
@@ -519,11 +520,13 @@ def exact_case(draw, tier="quick"):
         if draw(st.integers(0, 5)) == 0:
             s = {"el": [draw(_DRIVE)], "lock": s["lock"], **({"adapt": s["adapt"]} if adaptive else {})}
         steps.append(s)
+    # the first step always probes the boundary itself, before any adaptation has built up
+    steps[0] = {"el": [["s"]], "lock": steps[0]["lock"], "set": [["th", 0, 0]], **({"adapt": False} if adaptive else {})}
     case = {"cls": cls, "dtype": dtype, "dt": dt, "refrac_t": refrac_t, "shape": shape, "batch": batch,
             "params": params, "train": draw(st.booleans()) if adaptive else True, "steps": steps}
     if adaptive:
         case["reduction"] = draw(S([None, "sum"]))
-    case["attr"] = True if refrac_t > 0 else draw(st.integers(0, 4)) == 0
+    case["attr"] = True if refrac_t > 0 else draw(S([False, False, True, False, False]))
     return case
 
 
@@ -532,7 +535,7 @@ LEGS = [
         name="step",
         run=run_step,
         strategy=lambda tier: step_case(tier),
-        quick=260, thorough=3200, quick_shards=16, thorough_shards=16, nt_floor=0.35,
+        quick=300, thorough=5000, quick_shards=12, thorough_shards=16, nt_floor=0.35,
         rule="trajectory of 5-40 steps of one of the eight classes with >= 1 decisive spike, >= 1 decisive "
              "sub-threshold step of a non-refractory neuron, and >= 1 supra-threshold drive inside the documented "
              "silent window after a spike (if refrac_t <= dt there is no window: >= 1 supra-threshold drive on the "
@@ -542,7 +545,7 @@ LEGS = [
         name="exact",
         run=run_exact,
         strategy=lambda tier: exact_case(tier),
-        quick=150, thorough=1500, quick_shards=8, thorough_shards=16, nt_floor=0.35,
+        quick=250, thorough=1500, quick_shards=4, thorough_shards=16, nt_floor=0.35,
         rule="dyadic parameters, voltage assigned relative to the current threshold and stationary current fed: "
              ">= 1 neuron whose integrated voltage equals the threshold exactly with provably exact arithmetic "
              "(must fire) and >= 1 decisive neuron below threshold; linear and quadratic families",
